@@ -87,15 +87,18 @@ def run(chk: Check):
                expected=str(want), found=str(tab))
     # ------------------------------------------------------------------------------------------------ VMX.disks
     dctx = chk.func(VMX, "VMX.disks")
+    # the device classes: the collection whose elements the setting name is tested against with startswith()
     classes = None
-    for n in _own_nodes(dctx.func):
-        if isinstance(n, ast.Assign) and isinstance(n.value, (ast.Tuple, ast.List)):
-            try:
-                v = chk.prog.fold(n.value, dctx.mi)
-            except NotConst:
-                continue
-            if all(isinstance(x, str) for x in v) and len(v) >= 2:
-                classes = (n, v)
+    CLASSVAR = None
+    for n in sorted((x for x in ast.walk(dctx.func) if isinstance(x, ast.Call) and isinstance(x.func, ast.Attribute) and x.func.attr == "startswith" and x.args),
+                    key=lambda x: x.lineno):
+        t = R.expr(dctx, n.args[0], dctx.cfg.node_for(n))
+        if t[0] == "iter":
+            v = _const_seq(t[1])
+            if v is not None and all(isinstance(x, str) for x in v) and len(v) >= 2:
+                classes = (n, tuple(v))
+                CLASSVAR = t
+                break
     chk.decide(classes is not None and set(classes[1]) == {"scsi", "sata", "ide", "nvme"}, "K-CONST", "vmx:device-classes", classes[0] if classes else dctx.func,
                "disk-capable device classes are exactly scsi, sata, ide, nvme", found=str(classes[1] if classes else None))
     # lower-case literals at look-up
@@ -119,17 +122,15 @@ def run(chk: Check):
     chk.decide(not bad, "K-PROV", "vmx:lookups-are-lowercase", bad[0] if bad else dctx.func,
                "every literal key looked up in the (lower-cased) dictionary is lower-case" if not bad else
                f"`{ast.unparse(bad[0])[:60]}` contains upper-case characters, but keys are stored lower-cased: the look-up can never match")
-    # the filter's decision table
-    apps = [n for n in _own_nodes(dctx.func) if isinstance(n, ast.Call) and isinstance(n.func, ast.Attribute) and n.func.attr == "append"]
-    if not apps:
+    # the filter's decision table: which (file name, device type) pairs contribute to the result
+    sites = _collected(chk, dctx)
+    if not sites:
         chk.violated("K-DISPATCH", "vmx:disk-filter", dctx.func, "no disk file is collected")
     else:
-        a = apps[0]
-        v = R.expr(dctx, a.args[0])
+        a, v, conds = sites[0]
         props = v[2][0] if v[0] == "call" and v[1] == ".get" else None
         fn_t = S.call(".get", [props, S.C("filename")]) if props is not None else None
         dt_t = S.call(".get", [props, S.C("devicetype")]) if props is not None else None
-        conds = conds_sym(chk, dctx, a)
         ok = fn_t is not None and v == fn_t
         tab = {}
         if ok:
@@ -140,10 +141,10 @@ def run(chk: Check):
                         ov[S.call(".lower", [dt_t])] = dt_v.lower()
                     tab[(fn_v, dt_v)] = eval_conds(conds, S.Valuation(1, override=ov))
             want = {k: bool(k[0]) and (not k[1] or "disk" in k[1].lower()) for k in tab}
-            ok = tab == want
+            ok = {k: bool(x) for k, x in tab.items()} == want
         chk.decide(ok, "K-DISPATCH", "vmx:disk-filter", a,
                    "a device contributes its file name iff it has one and its device type is absent or contains 'disk' (case-insensitive)",
-                   found=str({k: v_ for k, v_ in tab.items() if v_ != (bool(k[0]) and (not k[1] or 'disk' in (k[1] or '').lower()))}) if tab else S.show(v)[:120])
+                   found=str({k: v_ for k, v_ in tab.items() if bool(v_) != (bool(k[0]) and (not k[1] or 'disk' in (k[1] or '').lower()))}) if tab else S.show(v)[:120])
     rets = [o for o in func_outcomes(chk, dctx) if o[0] == "return"]
     chk.decide(bool(rets) and rets[0][3][0] == "call" and rets[0][3][1] == "sorted", "K-PROV", "vmx:disks-sorted", dctx.func, "the list is returned sorted")
     # grouping: split at the first '.', the device id is what follows the class name
@@ -162,14 +163,9 @@ def run(chk: Check):
             inner, dev_id = base[2][0], base[2][1]
             if inner[0] == "call" and inner[1] == ".setdefault" and len(inner[2]) >= 2:
                 cls_key = inner[2][1]
-                vals_ = None
-                if cls_key[0] == "iter":
-                    src_ = cls_key[1]
-                    if S.is_const(src_):
-                        vals_ = tuple(src_[1])
-                    elif src_[0] in ("tuple", "list") and all(S.is_const(x) for x in src_[1]):
-                        vals_ = tuple(x[1] for x in src_[1])
-                is_class = classes is not None and vals_ == tuple(classes[1])
+                # the class variable: the loop variable over the classes, or next(<class for class in classes if startswith>, None)
+                is_class = CLASSVAR is not None and (cls_key == CLASSVAR or (
+                    cls_key[0] == "call" and cls_key[1] == "next" and cls_key[2] and cls_key[2][0][0] == "comp" and cls_key[2][0][2] == CLASSVAR))
                 okkey = is_class and S.contains(dev_id, lambda x: x == cls_key) and dev_id != cls_key
         elif base[0] == "sub" and base[1][0] == "sub":
             okkey = True  # devices[class][id][property]
@@ -301,3 +297,27 @@ def run(chk: Check):
     chk.decide(ok, "K-GRAMMAR", "pvs:hdd-system-name", pctx.func, "every .//Hdd contributes the text of its SystemName child, tested with `is not None`")
     chk.require("K-GRAMMAR", 10)
     chk.require("K-DISPATCH", 4)
+
+
+def _const_seq(t):
+    """Values of a constant tuple / list term (a folded constant or a tuple of constants)."""
+    if S.is_const(t) and isinstance(t[1], (tuple, list)):
+        return list(t[1])
+    if isinstance(t, tuple) and t and t[0] in ("tuple", "list") and all(S.is_const(x) for x in t[1]):
+        return [x[1] for x in t[1]]
+    return None
+
+
+def _collected(chk: Check, ctx):
+    """What a function collects into its result: `.append(x)` sites with their path conditions, and the elements of list
+    comprehensions with their filters.  -> [(where, element term, [(condition, polarity)])]"""
+    R = chk.R
+    out = []
+    for n in sorted((x for x in _own_nodes(ctx.func) if isinstance(x, ast.Call) and isinstance(x.func, ast.Attribute) and x.func.attr == "append" and len(x.args) == 1),
+                    key=lambda x: x.lineno):
+        out.append((n, R.expr(ctx, n.args[0], ctx.cfg.node_for(n)), conds_sym(chk, ctx, n)))
+    for n in sorted((x for x in _own_nodes(ctx.func) if isinstance(x, ast.ListComp)), key=lambda x: x.lineno):
+        t = R.expr(ctx, n, ctx.cfg.node_for(n))
+        if t[0] == "comp":
+            out.append((n, t[2], conds_sym(chk, ctx, n) + [(c, True) for c in t[4]]))
+    return out
